@@ -527,6 +527,14 @@ where
         data: Datagrams,
     ) -> Result<(), ForwardPacketError> {
         self.metrics.send_packets_recv.inc();
+        if !data.is_forwardable() {
+            // The destination's connection cannot write this frame (no contents, or too
+            // large once our endpoint id is attached). Queueing it would make the
+            // *destination's* actor fail on the write, so it is dropped here.
+            debug!(dst = %dst.fmt_short(), "datagram cannot be forwarded, dropped packet");
+            self.metrics.send_packets_dropped.inc();
+            return Ok(());
+        }
         self.clients
             .send_packet(dst, data, self.guard.endpoint_id(), &self.metrics)?;
 
